@@ -186,7 +186,8 @@ func Containers() map[string]interface{} {
 		"mf":   map[float64]string{0.5: "half"},
 		"mns":  map[NString]int{"x": 1, "y": 2, "z": 0},
 		"mjn":  map[json.Number]int{"1": 1},
-		"odd":  map[string]interface{}{"007": "bond", "7": "seven", "a~1b": "tilde", "a/b": "slash", "a~b": "t2", "010": "oct", "": "empty", " sp ": "spaces", "Key": "upper", "key": "lower"},
+		"odd": map[string]interface{}{"007": "bond", "7": "seven", "a~1b": "tilde", "a/b": "slash", "a~b": "t2", "010": "oct", "": "empty", " sp ": "spaces", "Key": "upper", "key": "lower",
+			"x.y": "dotted", "x": map[string]interface{}{"y": "nested"}, "c/d": "slashed", "c": map[string]interface{}{"d": "nested2"}, "Upper": "only-capitalised", "trim": "exact"},
 		"lodd": []string{"i0", "i1", "i2", "i3", "i4", "i5", "i6", "i7", "i8", "i9", "i10"},
 		"mix3": map[string]interface{}{"a": map[string]interface{}{"V": 1}, "b": map[string]interface{}{"V": []int{1}}, "c": map[string]interface{}{"V": 2}},
 		"pnl":  (*[]string)(nil),
@@ -477,6 +478,11 @@ func World(name string) []Doc {
 		return secretPair(NewTagged3("bee", "s3cr3t", "priv"), NewTagged3("bee", "0ther", "pri2"), "sj")
 	case "secrets-pointer":
 		return secretPair(NewTagged3("bee", "jay", "s3cr3t"), NewTagged3("bee", "jay", "0ther"), "sp")
+	case "secrets-zero":
+		// all visible fields are zero; one document of the pair has zero hidden fields as well
+		z := Tagged{}
+		h := Tagged{Hidden: "s3cr3t", private: "priv", hiddenEmb: hiddenEmb{Promoted: "p"}, Inner: TagInner{Secret: "s3cr3t", low: 5}}
+		return []Doc{{"sz-a", z}, {"sz-b", h}, {"sz-pa", &z}, {"sz-pb", &h}, {"sz-ma", map[string]interface{}{"t": z, "l": []Tagged{z}}}, {"sz-mb", map[string]interface{}{"t": h, "l": []Tagged{h}}}}
 	case "absent":
 		return []Doc{{"absent", Absent()}, {"absent-b", AbsentB()}, {"absent-again", Absent()}}
 	case "conts":
